@@ -283,4 +283,91 @@ theorem sim_round_parties (po : Nat → PriceOps P) (t : Nat) (s s1 : State P) (
 
 end C11
 
+/-! ### C05 / C11 — exactly once, over a whole run -/
+namespace C05
+
+/-- **Every fill of a simulation is applied to the ledger exactly once.**  The fills of a run are
+numbered `0 … N−1` in the order the matching engine produced them (`N` = number of fill records the
+markets wrote); the ledger updates of the whole run, concatenated, list exactly `0, 1, …, N−1`: no
+fill is skipped, none is applied twice, none is applied out of order. -/
+theorem sim_every_fill_applied_once (po : Nat → PriceOps P) (ms : Markets) (price : Nat → P)
+    (fund0 : Nat → Option P) (cfgs : List SessionCfg) (tapes : List (List (StepTape P))) :
+    ledgerRefs (Sim.run po ms price fund0 cfgs tapes).out.tr =
+      List.range (countFills (Sim.run po ms price fund0 cfgs tapes).recs) := by
+  rw [← run_counted]
+  exact (run_fresh po ms price fund0 cfgs tapes).1
+
+theorem sim_ledger_refs_nodup (po : Nat → PriceOps P) (ms : Markets) (price : Nat → P)
+    (fund0 : Nat → Option P) (cfgs : List SessionCfg) (tapes : List (List (StepTape P))) :
+    (ledgerRefs (Sim.run po ms price fund0 cfgs tapes).out.tr).Nodup := by
+  rw [sim_every_fill_applied_once]
+  exact List.nodup_range
+
+end C05
+
+namespace C11
+
+/-- **Every fill of a simulation is notified exactly twice** (to its buyer and to its seller; twice
+to the same agent for a self-trade), in fill order, over the whole run. -/
+theorem sim_every_fill_notified_twice (po : Nat → PriceOps P) (ms : Markets) (price : Nat → P)
+    (fund0 : Nat → Option P) (cfgs : List SessionCfg) (tapes : List (List (StepTape P))) :
+    cbRefs (Sim.run po ms price fund0 cfgs tapes).out.tr =
+      dup (List.range (countFills (Sim.run po ms price fund0 cfgs tapes).recs)) := by
+  rw [← run_counted]
+  exact (run_fresh po ms price fund0 cfgs tapes).2
+
+end C11
+
+/-! ### non-vacuity: a concrete two-agent simulation in which a trade happens -/
+namespace SimDemo
+
+def po : Nat → PriceOps Nat := fun _ => C01.natOps
+
+def sell : SReq Nat :=
+  { owner := 1
+    market := 0
+    isCancel := false
+    ref := 0
+    marketOk := true
+    stamped := false
+    req := { agent := 1, isBuy := false, price := some 100, vol := 2, ttl := none }
+    cancelId := 0
+    fx := fun _ => Fx.none }
+
+def buy : SReq Nat :=
+  { owner := 2
+    market := 0
+    isCancel := false
+    ref := 1
+    marketOk := true
+    stamped := false
+    req := { agent := 2, isBuy := true, price := some 101, vol := 1, ttl := none }
+    cancelId := 0
+    fx := fun _ => Fx.none }
+
+def tape : Sim.StepTape Nat :=
+  { resume := fun _ => StepFx.none, perm := [1, 2],
+    answer := fun a => if a = 1 then [sell] else if a = 2 then [buy] else [],
+    shuffle := [0, 1], rounds := [], fund := fun _ => some 100 }
+
+def cfg : SessionCfg := { steps := 1, placement := true, execution := true, maxNormal := 5, maxHft := 0 }
+
+def result : SOut Nat := Sim.run po [(0, false)] (fun _ => 100) (fun _ => some 100) [cfg] [[tape]]
+
+def fillsOf (l : List (MRec Nat)) : List (Nat × Nat × Nat × Nat) :=
+  l.filterMap (fun x => match x.2 with
+    | .fill f => some (x.1, f.price, f.buyAgent, f.sellAgent)
+    | _ => none)
+
+/-- the demo run completes, one fill is written (market 0, at the resting sell order's price 100,
+buyer 2, seller 1), the ledger lists fill 0 once and the two parties are notified -/
+theorem nonvacuous :
+    result.out.ok = true ∧ countFills result.recs = 1 ∧ ledgerRefs result.out.tr = [0] ∧
+    cbRefs result.out.tr = [0, 0] ∧ (result.st.mkt 0).time = 1 ∧
+    fillsOf result.recs = [(0, 100, 2, 1)] :=
+  ⟨by decide +kernel, by decide +kernel, by decide +kernel, by decide +kernel, by decide +kernel,
+   by decide +kernel⟩
+
+end SimDemo
+
 end Pams
